@@ -85,7 +85,7 @@ theorem loopRefinementPx_eq (P : Params) (hP : P.variant = sourceVariant) (hsp :
                   simp [encRes, liftPy, encPix, he]
                 | ok r =>
                   have hne : P.subpix ≠ 0 := by omega
-                  simp [encRes, encOut, liftPy, divBy, hsp', hne, encPix, hO, Generated.KernelsRefine.flagUpdateIsOr]
+                  simp [encRes, encOut, liftPy, divBy, hsp', hne, encPix, hO, Generated.KernelsRefine.flagUpdateIsOr, Nat.or_assoc]
           · rw [if_neg (by first | exact hg | (rw [Bool.and_comm]; exact hg)), if_neg hg]
             simp [encPix, hO, Generated.KernelsRefine.flagUpdateIsOr, stoppedBit, Flags.stoppedInterpolation]
   · simp [encPix]
